@@ -13,6 +13,8 @@ def available_methods():
 
 def base_case(rng, cid, method, defaults, fams=None, patho=False, **over):
     fam = rng.choice(fams or (gen.PATHO if patho else gen.SMOOTH))
+    if method in ("RADAU", "BDF") and not fams and not patho and rng.random() < 0.5:
+        fam = rng.choice(gen.STIFF)
     prob = fam(rng)
     n = len(prob["y0"])
     x0 = rng.choice([0.0, 0.0, round(rng.uniform(-2, 2), 2)])
@@ -26,6 +28,14 @@ def base_case(rng, cid, method, defaults, fams=None, patho=False, **over):
     if mode == "rel" and prob["name"] in ("zero", "const", "sho", "vdp", "rot3", "forced", "linear1", "linear2", "linear3", "linear4", "discont"):
         atol = 1e-9  # pure relative control needs a solution bounded away from 0
     kw = dict(method=method, prob=prob, x0=x0, xend=xend, rtol=rtol, atol=atol, defaults=defaults)
+    if method in ("RADAU", "BDF"):
+        kw["use_jac"] = bool(prob.get("jac")) and rng.random() < 0.6
+        if isinstance(rtol, float) and rtol < 1e-9:
+            kw["rtol"] = 1e-9
+        if isinstance(rtol, list):
+            kw["rtol"] = [max(r, 1e-9) for r in rtol]
+        if rtol == 0.0:
+            kw["rtol"] = 1e-6
     kw.update(over)
     meta = {"family": prob["name"], "n": n, "backward": backward, "tolmode": mode, "method": method}
     return kw, meta
